@@ -68,6 +68,11 @@ def cases(tier):
 
     out.append(dict(name="bs_shared_frames", kind="shared", units=BS.margin_units(10, 2, 1), B=2,
                     R=dict(pi="bootstrap", alphas=[0.9], estimands=["margin"], aggregates=aggs), weight=20))
+    out.append(dict(name="bs_shared_frames_updated_feed", kind="shared", update=True, units=BS.margin_units(10, 2, 1), B=2,
+                    R=dict(pi="bootstrap", alphas=[0.9], estimands=["margin"], aggregates=aggs), weight=20))
+    out.append(dict(name="no_shared_frames_updated_feed", kind="shared", update=True,
+                    units=P.standard_units(4, 2, [P.U("c2_x0", "unexp")], cls=True),
+                    R=dict(pi="nonparametric", alphas=[0.5], estimands=["dem", "turnout"], aggregates=aggs), cut_calibration=True, weight=10))
     for seed in (0, 7):
         out.append(dict(name="bootstrap_draws_seed%d" % seed, kind="bs_entropy", seed=seed, R=dict(pi="bootstrap"), weight=15))
     return out
@@ -137,6 +142,31 @@ def run_shared(ctx, case):
         pre, cur = sc.frames()
         for _ in range(2):
             results.append({k: v.copy() for k, v in P.run_client(ctx, c, sc=sc, frames=(pre, cur)).res.items()})
+    if case.get("update"):
+        # the caller now updates raw counts of the feed IN PLACE (new votes arrived) and asks again with the same objects;
+        # the answer must be the one a caller with freshly built frames of the same content gets
+        raw = [col_ for col_ in ("results_dem", "results_gop", "results_turnout") if col_ in cur.columns]
+        i0 = 0
+        for col_ in raw:
+            v = cur[col_].iloc[i0]
+            cur.loc[cur.index[i0], col_] = v + (40 if col_ != "results_gop" else 3)
+        fresh_pre, fresh_cur = pre[[col_ for col_ in pre.columns if col_ in sc.frames()[0].columns]].copy(), cur[
+            [col_ for col_ in cur.columns if col_ in ["postal_code", "geographic_unit_fips", "percent_expected_vote"] + raw]].copy()
+        if bs_mode:
+            boot = BS.BootStub(ctx, case["B"]).install()
+            boot.state = None
+            try:
+                same_obj = {k: v.copy() for k, v in BS.run_bs_client(ctx, c, sc=sc, boot=boot, frames=(pre, cur)).res.items()}
+                fresh = {k: v.copy() for k, v in BS.run_bs_client(ctx, c, sc=sc, boot=boot, frames=(fresh_pre, fresh_cur)).res.items()}
+            finally:
+                boot.uninstall()
+        else:
+            same_obj = {k: v.copy() for k, v in P.run_client(ctx, c, sc=sc, frames=(pre, cur)).res.items()}
+            fresh = {k: v.copy() for k, v in P.run_client(ctx, c, sc=sc, frames=(fresh_pre, fresh_cur)).res.items()}
+        obl = [("same set of tables", sorted(same_obj) == sorted(fresh))]
+        for t in sorted(set(same_obj) & set(fresh)):
+            obl += T.compare_tables(fresh[t], same_obj[t], "after an in-place update of the feed: " + t)
+        return obl, {"fresh": P.tables_out(fresh)}
     a, b = results
     obl = [("same set of tables", sorted(a) == sorted(b))]
     if bs_mode:
